@@ -80,3 +80,28 @@ add("C17", "exploration", "exhaustive evaluation of every transform configuratio
     "guard against an unsatisfiable oracle.",
     "Float64 points between lattice points away from special points are not visited; tolerance rule of DESIGN §5 (K=256) with a flush-to-zero floor.",
     "DESIGN.md §7 C17")
+
+add("C13", "model_checking", "explicit-state BFS over set_ncomp(branch, n) histories (depth 2-3) on three real cells; every reached state compared with direct construction (tables + simulation on all backends); path independence over all histories reaching one compartment vector",
+    "All histories of set_ncomp calls (every branch, n in {1,2,3(,4)}) from a hand-built cell with channels and groups, a passive one, and an SWC cell are replayed on the real "
+    "module; each state is compared with a directly built module / read_swc with that n, group-to-branch membership and untouched branches are checked, and all states sharing "
+    "a compartment vector must have one canonical snapshot.",
+    "Tables compared up to round-off (1e-12); refusals of set_ncomp (single-compartment branch with channels) are allowed; depth 3.",
+    "DESIGN.md §7 C13")
+
+add("C03", "exploration", "exhaustive evaluation of every gate update kernel over dyadic voltage lattices plus all floats within ±64 ulp of every singular/clip voltage (thorough: every float32 in [-200,200]) x dt x state x parameter alphabets against the closed-form exponential update of reference kinetics",
+    "Every mechanism x 16 kinetic parameter settings x ~8k voltages (all singular voltages exactly and their float64/float32 ulp-neighbourhoods) x 6 time steps x 6 states through "
+    "the real update_states in float64 (all rules) and float32 (qualitative rules); thorough sweeps all 2.26e9 float32 voltages of the interval.",
+    "Reference kinetics vf/refkin.py typed from the publications; float64 voltages between lattice points away from special points are not visited.",
+    "DESIGN.md §7 C03")
+
+add("C04", "exploration", "exhaustive comparison of rate functions, propagators, currents, defaults and change_name key maps of every built-in mechanism with published kinetics over the same lattices",
+    "Steady states and one-step propagators (6 dt) through two routes (gate functions and black-box update_states), currents over all state/conductance/reversal combinations, "
+    "exact default tables, and 114 rename chains per mechanism with bitwise-equal dynamics under the key map.",
+    "Published equations as typed into vf/refkin.py (HH 1952 / NEURON hh.mod at 6.3 C, Pospischil 2008, Abbott & Marder 1998); Pospischil defaults are those documented in jaxley's classes.",
+    "DESIGN.md §7 C04")
+
+add("C14", "exploration", "exhaustive enumeration of partial insertions (all non-empty subsets, channel pairs sharing parameters, renamed channels) x voltage/parameter alphabets through the real init_states, checked with the channel's own update as fixed-point oracle",
+    "413 real modules (every insertion subset of a 3-compartment branch for 17 channel configurations, 49 subset pairs for 6 channel pairs) plus kernel-level and long-branch sweeps of "
+    "the whole [-120,60] lattice; after the real init_states() one real update_states at the same voltage may move no gate by more than 1e-12 for three time steps; untouched rows/columns compared exactly.",
+    "Oracle is the implementation's own update rule (no reference kinetics); fixed list of voltage triples at module level, full lattice at kernel level.",
+    "DESIGN.md §7 C14")
